@@ -4,3 +4,5 @@ pub mod c13;
 pub mod c15;
 pub mod c16;
 pub mod c14;
+pub mod c02;
+pub mod audits;
